@@ -6,7 +6,7 @@ import numpy as np
 from .common import *  # noqa: F401,F403
 from .common import (Check, OracleFailure, SymEnv, sym_pixels, pixels_from_inputs, scratch_file, symcooler, known_active)
 from engine.symcore import SReal
-from .model import (concrete_bins, build_cooler_sym, build_cooler_real, read_pixels_sym, read_pixels_real, validity_sym, validity_real,
+from .model import (concrete_bins, named_bins, tables_kept_sym, tables_kept_real, build_cooler_sym, build_cooler_real, read_pixels_sym, read_pixels_real, validity_sym, validity_real,
                     sym_bins, bins_frame, real_widths)
 
 
@@ -35,7 +35,7 @@ def merge_sym(p):
     sc = symcooler()
     layout, Ks, upper, how = p["layout"], p["Ks"], p["upper"], p["agg"]
     n = sum(layout)
-    bins = concrete_bins(layout, p["kind"])
+    bins = named_bins(layout, p["kind"], p.get("chrom_names"))
     tables, uris = [], []
     for i, K in enumerate(Ks):
         b1, b2, v = sym_pixels(n, K, upper, prefix=f"t{i}_")
@@ -60,6 +60,7 @@ def merge_sym(p):
     sc.merge_coolers(out, uris, mergebuf=buf, columns=["count", "w"], agg=agg)
     for cond, msg in validity_sym(out):
         prove(cond, "merged output: " + msg)
+    tables_kept_sym(out, bins, what="merged output")
     pix, attrs = read_pixels_sym(out)
     o1, o2, oc, ow = pix["bin1_id"], pix["bin2_id"], pix["count"], pix["w"]
     conds = []
@@ -81,7 +82,7 @@ def merge_real(p, inputs):
     import cooler
     layout, Ks, upper, how = p["layout"], p["Ks"], p["upper"], p["agg"]
     n = sum(layout)
-    bins = concrete_bins(layout, p["kind"])
+    bins = named_bins(layout, p["kind"], p.get("chrom_names"))
     uris, tables = [], []
     for i, K in enumerate(Ks):
         b1, b2, v = pixels_from_inputs(inputs, K, prefix=f"t{i}_")
@@ -95,6 +96,7 @@ def merge_real(p, inputs):
     out = scratch_file("c07_out.cool")
     cooler.merge_coolers(out, uris, mergebuf=inputs["mergebuf"], columns=["count", "w"], agg={"w": how} if how != "sum" else None)
     validity_real(out)
+    tables_kept_real(out, bins)
     exp = {}
     for b1, b2, v, w in tables:
         for r, c, x, y in zip(b1, b2, v, w):
@@ -128,6 +130,8 @@ def _merge_cases(tier):
     # inputs whose value column has different dtypes (int64 then float64, and the reverse order)
     out.append(dict(layout=[2], kind="fixed", Ks=[1, 1], upper=True, agg="sum", mixed=True))
     out.append(dict(layout=[2], kind="fixed", Ks=[1, 1, 1], upper=True, agg="sum", mixed=True))
+    # chromosome names whose order in the inputs is not the lexicographic one
+    out.append(dict(layout=[1, 2], kind="variable", Ks=[1, 1], upper=True, agg="sum", chrom_names=["chr2", "chr10"]))
     return out
 
 
